@@ -588,6 +588,20 @@ func (vc *VC) cellPaths(t types.Type) []cellPath {
 		}
 		return out
 	case *types.Array:
+		if u.Len() <= 16 {
+			// small fixed arrays (e.g. the zero-length no-compare marker of go.uber.org/atomic): one path per element
+			var out []cellPath
+			for i := int64(0); i < u.Len(); i++ {
+				k := i
+				for _, cp := range vc.cellPaths(u.Elem()) {
+					inner := cp.build
+					out = append(out, cellPath{func(b Term) Term {
+						return inner(App(SPath, "PElem", b, IntLit(k)))
+					}, cp.ty})
+				}
+			}
+			return out
+		}
 		panic(unsupported("bulk copy of array-typed elements"))
 	}
 	return []cellPath{{func(b Term) Term { return b }, t}}
